@@ -318,14 +318,23 @@ def check_deepest_only_finest(prog, ctx):
                             "a component whose effective level equals max_level keeps the deepest points although it is not the finest one)" if strict else ""))
         if g2 not in guards:
             problems.append("the raise is not restricted to components below the finest level (levelvec[d] < self.lmax[d])")
-    # clamp
-    clamp = False
-    for n in c.nodes:
-        if n.kind == "stmt" and isinstance(n.ast, ast.Assign) and isinstance(n.ast.targets[0], ast.Name) and n.ast.targets[0].id == sv:
-            t = tm.term(n.ast.value)
-            if t[0] == "call" and t[1] == ("n", "min") and ("n", sv) in t[2] and ("op", "Sub", (L, ("s", ("a", ("n", "self"), "lmin"), ("n", d)))) in t[2]:
-                rets = R.return_paths(fi)[0]
-                clamp = all(c.dominates(n, r) for r in rets) and all(tm.term(r.ast.value) == ("n", sv) for r in rets)
+    # clamp: every returned value is min(s, levelvec[d] - self.lmin[d]) -- returned directly or through the (re-assigned) parameter
+    def _is_clamp(t):
+        return t[0] == "call" and t[1] == ("n", "min") and len(t[2]) == 2 and ("n", sv) in t[2] \
+            and ("op", "Sub", (L, ("s", ("a", ("n", "self"), "lmin"), ("n", d)))) in t[2]
+    rets = R.return_paths(fi)[0]
+    clamp = bool(rets) and not R.return_paths(fi)[1] and not R.return_paths(fi)[2]
+    for r in rets:
+        rt = tm.term(r.ast.value)
+        if _is_clamp(rt):
+            continue
+        doms = [n for n in c.nodes if n.kind == "stmt" and isinstance(n.ast, ast.Assign) and isinstance(n.ast.targets[0], ast.Name)
+                and n.ast.targets[0].id == sv and _is_clamp(tm.term(n.ast.value)) and c.dominates(n, r)]
+        later = [n for n in c.nodes if n.kind == "stmt" and isinstance(n.ast, (ast.Assign, ast.AugAssign)) and n not in doms
+                 and any(isinstance(x, ast.Name) and x.id == sv and isinstance(x.ctx, ast.Store) for x in ast.walk(n.ast))
+                 and any(c.dominates(dn, n) or n.idx in c.reachable_after(dn) for dn in doms)]
+        if not (rt == ("n", sv) and doms and not later):
+            clamp = False
     if not clamp:
         problems.append("the result is not clamped by min(s, levelvec[d] - self.lmin[d]) on every path")
     ctx.check(not problems, "C03.D6", R.key_of(fi, "deepest-only-in-finest"), fi.loc(),
